@@ -931,6 +931,7 @@ class RpcServer:
                 except ProtocolVersionError as exc:
                     err_schema = info.result_schema if info.method_type == MethodType.UNARY else _EMPTY_SCHEMA
                     _write_error_stream(transport.writer, err_schema, exc, server_id=self._server_id)
+                    self._drain_refused_stream_input(transport, info)
                     return
 
             # Request validation. Both steps are answered with a typed error
@@ -954,6 +955,7 @@ class RpcServer:
             except Exception as exc:
                 err_schema = info.result_schema if info.method_type == MethodType.UNARY else _EMPTY_SCHEMA
                 _write_error_stream(transport.writer, err_schema, exc, server_id=self._server_id)
+                self._drain_refused_stream_input(transport, info)
                 return
 
             # Determine the SHM segment for this call's data plane (resolving
@@ -996,6 +998,23 @@ class RpcServer:
             _current_request_metadata.reset(md_token)
             _current_call_stats.reset(stats_token)
             _current_request_id.reset(token)
+
+    def _drain_refused_stream_input(self, transport: RpcTransport, info: RpcMethodInfo) -> None:
+        """Consume the input stream a header-less stream's client sends after a refused or failed init.
+
+        The client of a header-less stream learns that the call failed only when
+        it reads the first output — by which point ``tick()`` / ``exchange()`` /
+        ``close()`` / ``cancel()`` has already opened (and will close) its input
+        IPC stream.  Left unread, that stream is parsed as the *next request* and
+        answered with a stale protocol error that the following call then
+        receives.  A header-declaring stream's client reads the error in place
+        of the header and never opens an input stream, so nothing is drained
+        for it.
+        """
+        if info.method_type != MethodType.STREAM or info.header_type is not None:
+            return
+        with contextlib.suppress(pa.ArrowInvalid, OSError):
+            _drain_stream(ValidatedReader(ipc.open_stream(transport.reader), self._ipc_validation))
 
     def _prepare_method_call(
         self, info: RpcMethodInfo, kwargs: dict[str, object]
@@ -1129,6 +1148,13 @@ class RpcServer:
         # the outer one handles streaming errors.  Only one access log fires per call.
         try:
             result: Stream[StreamState, Any] = getattr(self._impl, info.name)(**kwargs)
+            # A result the stream loop cannot serve is an initialization error
+            # like any other: answer it, rather than let an AttributeError /
+            # TypeError escape below and end the connection without a reply.
+            if not isinstance(result, Stream):
+                raise TypeError(f"Method '{info.name}' must return a Stream, got {type(result).__name__}")
+            if info.header_type is not None and result.header is None:
+                raise TypeError(f"Method '{info.name}' declares header type but returned header=None")
         except Exception as exc:
             _hook_exc = exc
             status = "error"
@@ -1136,6 +1162,7 @@ class RpcServer:
             error_message = str(exc)
             with contextlib.suppress(BrokenPipeError, OSError):
                 _write_error_stream(transport.writer, _EMPTY_SCHEMA, exc, server_id=self._server_id)
+            self._drain_refused_stream_input(transport, info)
             return
         finally:
             if status == "error":
